@@ -32,13 +32,16 @@ F_NpHist == {[fam |-> "nphist", f1 |-> f1, mut |-> m, f2 |-> f2, lu |-> i, ldt |
                f1 \in HistFns, m \in {"imul", "out", "setter", "idiv"}, f2 \in HistFns, i \in {IdxOf("m"), IdxOf("s"), IdxOf("m2")}}
 UnitAfter(m, u) == CASE m \in {"imul", "out"} -> UMul(u, u) [] m = "idiv" -> Unit0 [] m = "setter" -> UPow(U1("kg"), 2)
 Tr(f, u) == CASE f = "sqrt" -> URoot(u, 2) [] f = "square" -> UPow(u, 2) [] f = "reciprocal" -> UInv(u)
+\* in-place operators x op= y (C17): the outcome is that of x op y (same rule), x stays the same object, y is left untouched
+F_Inplace == {BinCase("inplace", op, i, j, "f8", b, rk, "s2", IF rk = "float" THEN "s0" ELSE "s2") :
+                op \in Arith, i \in SmallPool \cup {IdxOf("km")}, j \in SmallPool \cup {IdxOf("km")}, b \in {"f8", "f4"}, rk \in {"arr", "qty", "float", "nd1"}}
 CONSTANT Fams       \* the families a run enumerates (a check only needs those that decide its property)
 FamSet(f) == CASE f = "units" -> F_Units [] f = "dtypes" -> F_Dtypes [] f = "kinds" -> F_Kinds [] f = "shapes" -> F_Shapes [] f = "logic" -> F_Logic
-               [] f = "unary" -> F_Unary [] f = "to" -> F_To [] f = "chain" -> F_Chain [] f = "np" -> F_Np \cup F_NpHist
+               [] f = "unary" -> F_Unary [] f = "to" -> F_To [] f = "chain" -> F_Chain [] f = "np" -> F_Np \cup F_NpHist [] f = "inplace" -> F_Inplace
 LaneCases(k) == UNION {{c \in FamSet(f) : (c.lu * 7 + (IF "ru" \in DOMAIN c THEN c.ru ELSE 0)) % NL = k} : f \in Fams}
 
 OutcomeOf(c) ==
-  CASE c.fam \in {"units", "dtypes", "kinds", "shapes", "logic"} -> Outcome(c)
+  CASE c.fam \in {"units", "dtypes", "kinds", "shapes", "logic", "inplace"} -> Outcome(c)
     [] c.fam = "unary" -> UnOutcome(c.op, c.lu)
     [] c.fam = "to" -> ToOutcome(c.lu, c.ru)
     [] c.fam = "chain" -> [ab |-> ToOutcome(c.lu, c.mu), bc |-> ToOutcome(c.mu, c.ru), ac |-> ToOutcome(c.lu, c.ru)]
